@@ -592,7 +592,8 @@ Inductive cobs :=
 | OParse (o : option mobs)
 | OTable (o : option (list Z))
 | OGenerate (o : option mobs)
-| OBad.
+| OBad       (* the harness could not run the case (marked inconclusive, never evaluated) *)
+| OPanic.    (* the code under test panicked: never produced by the model, never accepted by the oracle *)
 
 Definition olist_eqb (a b : option (list Z)) : bool :=
   match a, b with
